@@ -688,3 +688,171 @@ func inHistTail(c *Ctx, quick, thorough int64) bool {
 	}
 	return c.K >= quick
 }
+
+// histIniReuse: one IniParser used for two reads with a change of the public model in between.
+// Variants: (a) a section that does not exist at the first read is registered (AddGroup / AddCommand) before
+// the second; (b) an option that the key matched by short name is outranked by a late option whose ini-name is
+// that key; (c) the namespace of the key's group is renamed (the old spelling must stop resolving).
+func histIniReuse(c *Ctx, d *Decl) string {
+	r := c.Sub("history-ini")
+	b := d.Build()
+	if b.Err != nil || d.resolveLive(b) != "" {
+		return ""
+	}
+	ip := flags.NewIniParser(b.P)
+	ignore := d.Options&flags.IgnoreUnknown != 0
+	asDefaults := r.Bool()
+	ip.ParseAsDefaults = asDefaults
+	read := func(text string) (err error, pi *PanicInfo) {
+		pi = safely(func() { err = ip.Parse(strings.NewReader(text)) })
+		return
+	}
+	variant := []string{"late-section", "late-section", "late-higher-ranked-option", "renamed-namespace"}[r.Intn(4)]
+	if variant != "late-section" {
+		// (a second as-defaults read does not replace what the first one stored: whether an option counts as
+		// "already set" is carried over between reads - not state-free; these variants read in normal mode)
+		asDefaults = false
+		ip.ParseAsDefaults = false
+	}
+	c.Note("history", map[string]interface{}{"variant": variant, "as_defaults": asDefaults, "ignore_unknown": ignore})
+	switch variant {
+	case "late-section":
+		late := &struct {
+			Late string `long:"zz-late"`
+			N    int    `long:"zz-n"`
+		}{}
+		viaCmd := r.Bool()
+		sec := "Zz Late"
+		if viaCmd {
+			sec = "zzlate"
+		}
+		t1 := "[" + sec + "]\nzz-late = v1\n"
+		err1, pi := read(t1)
+		if pi != nil {
+			c.Violate("history:late-section:panic", "first read panicked: %s", pi.Value)
+			return variant
+		}
+		fe, _ := err1.(*flags.Error)
+		if !ignore && (fe == nil || fe.Type != flags.ErrUnknownGroup) {
+			c.Violate("history:late-section:first-read", "section [%s] does not exist yet, the first read returned %v", sec, err1)
+			return variant
+		}
+		if ignore && err1 != nil {
+			c.Violate("history:late-section:first-read", "IgnoreUnknown: the first read returned %v", err1)
+			return variant
+		}
+		var aerr error
+		if viaCmd {
+			_, aerr = b.P.AddCommand("zzlate", "late command", "", late)
+		} else {
+			_, aerr = b.P.AddGroup("Zz Late", "", late)
+		}
+		if aerr != nil {
+			return ""
+		}
+		bad := r.Bool()
+		t2 := "; second read\n[" + sec + "]\nzz-late = v2\n"
+		if bad {
+			t2 += "zz-n = not-a-number\n"
+		}
+		err2, pi := read(t2)
+		if pi != nil {
+			c.Violate("history:late-section:panic", "second read panicked: %s", pi.Value)
+			return variant
+		}
+		if bad {
+			ie, ok := err2.(*flags.IniError)
+			if !ok || ie.LineNumber != 4 {
+				c.Violate("history:late-section:bad-line-not-located", "after the section was registered, the unconvertible value on line 4 of the second read is reported as %v", err2)
+			}
+			return variant
+		}
+		if err2 != nil || late.Late != "v2" {
+			c.Violate("history:late-section:not-applied", "section [%s] was registered after the first read; the second read on the same IniParser returned %v and stored %q (expected \"v2\")", sec, err2, late.Late)
+		}
+		return variant
+	case "late-higher-ranked-option":
+		// a group with a description whose own option has an ASCII short name and a transparent scalar type
+		var cands []*Opt
+		for _, o := range d.Opts {
+			if o.Grp.Desc != "" && o.Grp.FG != nil && o.Cmd == d.Root && o.Short != 0 && o.Short < 128 && o.T.K == KString && o.T.W == WScalar && len(o.Choices) == 0 && !o.NoIni && o.Grp.Parent != nil {
+				key := string(o.Short)
+				if iniKeySingles(d, []*Grp{o.Grp}, key, o) {
+					cands = append(cands, o)
+				}
+			}
+		}
+		if len(cands) == 0 {
+			return ""
+		}
+		o := cands[r.Intn(len(cands))]
+		key := string(o.Short)
+		sec := o.Grp.Desc
+		err1, pi := read("[" + sec + "]\n" + key + " = first\n")
+		if pi != nil || err1 != nil {
+			if pi != nil {
+				c.Violate("history:late-higher-ranked-option:panic", "first read panicked: %s", pi.Value)
+			}
+			return ""
+		}
+		// the struct type must carry the key as ini-name: build it with reflect
+		st := reflect.StructOf([]reflect.StructField{{Name: "X", Type: tString, Tag: reflect.StructTag(`long:"zz-x" ini-name:"` + key + `"`)}})
+		pv := reflect.New(st)
+		if _, err := o.Grp.FG.AddGroup("Late Ranked", "", pv.Interface()); err != nil {
+			return ""
+		}
+		before := o.Val.String()
+		err2, pi := read("[" + sec + "]\n" + key + " = second\n")
+		if pi != nil {
+			c.Violate("history:late-higher-ranked-option:panic", "second read panicked: %s", pi.Value)
+			return variant
+		}
+		if got := pv.Elem().Field(0).String(); err2 != nil || got != "second" || o.Val.String() != before {
+			c.Violate("history:late-higher-ranked-option:stale", "key %q in [%s] named option %s by its short name at the first read; then a nested group with an option whose ini-name is %q was added: the second read on the same IniParser returned %v, the new option holds %q (expected \"second\"), the old one went from %q to %q", key, sec, o.Field, key, err2, got, before, o.Val.String())
+		}
+		return variant
+	default:
+		var cands []*Opt
+		for _, o := range d.Opts {
+			if o.Grp.Desc != "" && o.Grp.FG != nil && o.Grp.Namespace != "" && o.Cmd == d.Root && o.Long != "" && o.T.K == KString && o.T.W == WScalar && len(o.Choices) == 0 && !o.NoIni {
+				if iniKeySingles(d, []*Grp{o.Grp}, d.FullLong(o), o) {
+					cands = append(cands, o)
+				}
+			}
+		}
+		if len(cands) == 0 {
+			return ""
+		}
+		o := cands[r.Intn(len(cands))]
+		sec := o.Grp.Desc
+		oldKey := d.FullLong(o)
+		if err1, pi := read("[" + sec + "]\n" + oldKey + " = first\n"); pi != nil || err1 != nil {
+			return ""
+		}
+		o.Grp.Namespace = fmt.Sprintf("rn%d", d.NewID())
+		o.Grp.FG.Namespace = o.Grp.Namespace
+		newKey := d.FullLong(o)
+		err2, pi := read("[" + sec + "]\n" + newKey + " = second\n")
+		if pi != nil {
+			c.Violate("history:renamed-namespace:panic", "second read panicked: %s", pi.Value)
+			return variant
+		}
+		if err2 != nil || o.Val.String() != "second" {
+			c.Violate("history:renamed-namespace:new-name", "after the namespace change the key %q is read as %v / value %q (expected \"second\")", newKey, err2, o.Val.String())
+			return variant
+		}
+		err3, pi := read("[" + sec + "]\n" + oldKey + " = third\n")
+		if pi != nil {
+			c.Violate("history:renamed-namespace:panic", "third read panicked: %s", pi.Value)
+			return variant
+		}
+		if !ignore {
+			if _, ok := err3.(*flags.IniError); !ok {
+				c.Violate("history:renamed-namespace:old-name-accepted", "the key %q no longer names an option after the namespace change, but reading it returned %v and the option holds %q", oldKey, err3, o.Val.String())
+			}
+		} else if o.Val.String() != "second" {
+			c.Violate("history:renamed-namespace:old-name-accepted", "IgnoreUnknown: the stale key %q changed the option to %q", oldKey, o.Val.String())
+		}
+		return variant
+	}
+}
